@@ -16,6 +16,7 @@ from glotaran.io import load_parameters
 from glotaran.parameter.parameter import Parameter
 from glotaran.utils.ipython import MarkdownStr
 from glotaran.utils.sanitize import pretty_format_numerical
+from glotaran.utils.sanitize import sanitize_parameter_list
 
 if TYPE_CHECKING:
     from glotaran.parameter.parameter_history import ParameterHistory
@@ -77,6 +78,7 @@ class Parameters:
         for i, item in enumerate(item for item in parameter_list if not isinstance(item, dict)):
             if not isinstance(item, list):
                 item = [item]
+            item = sanitize_parameter_list(list(item))
             if not any(isinstance(v, str) for v in item):
                 item += [f"{i+1}"]
             parameter = Parameter.from_list(item, default_options=defaults)
@@ -480,7 +482,7 @@ def flatten_parameter_dict(
             ):
                 if not isinstance(list_value, list):
                     list_value = [str(index), list_value]
-                elif not any(isinstance(v, str) for v in list_value):
+                elif not any(isinstance(v, str) for v in sanitize_parameter_list(list(list_value))):
                     list_value += [str(index)]
                 yield key, list_value, sub_dict
 
